@@ -13,7 +13,7 @@ open Sf Sf.Meta
 theorem ite_nil_iff {α : Type} (c : Prop) [Decidable c] (x : α) : (if c then ([] : List α) else [x]) = [] ↔ c := by
   by_cases h : c <;> simp [h]
 
-theorem ite_nil_iff' {α : Type} (c : Prop) [Decidable c] (x : α) : (if c then [x] else ([] : List α)) = [] ↔ ¬ c := by
+theorem ite_nil_iff_not {α : Type} (c : Prop) [Decidable c] (x : α) : (if c then [x] else ([] : List α)) = [] ↔ ¬ c := by
   by_cases h : c <;> simp [h]
 
 theorem flatMap_nil_iff {α β : Type} (l : List α) (f : α → List β) : l.flatMap f = [] ↔ ∀ x ∈ l, f x = [] := by
@@ -183,7 +183,7 @@ structure Absent (c : Cont) (sets : List SetCall) (m : Got) : Prop where
 
 theorem absentFails_nil_iff (c : Cont) (sets : List SetCall) (m : Got) : absentFails c sets m = [] ↔ Absent c sets m := by
   unfold absentFails
-  simp only [List.append_eq_nil_iff, filter_map_nil_iff, ite_nil_iff']
+  simp only [List.append_eq_nil_iff, filter_map_nil_iff, ite_nil_iff_not]
   constructor
   · rintro ⟨⟨⟨⟨⟨h1, h2⟩, h3⟩, h4⟩, h5⟩, h6⟩
     refine ⟨?_, ?_, ?_, ?_, ?_, ?_⟩
@@ -260,7 +260,7 @@ theorem refusedValidGo_nil_iff (g : Geom) : ∀ (cs : List SetCall) (room : Nat)
     exact absurd h (by simp)
   | c :: cs, room => by
     unfold refusedValidGo
-    simp only [List.append_eq_nil_iff, ite_nil_iff']
+    simp only [List.append_eq_nil_iff, ite_nil_iff_not]
     rw [refusedValidGo_nil_iff g cs]
     constructor
     · rintro ⟨h1, h2⟩ pre d post hsplit
@@ -455,7 +455,7 @@ theorem twinFails_nil_iff (g : Geom) (main twin : Run) : twinFails g main twin =
       · intro h; simp at h
       · intro h; obtain ⟨a', b, _, e2, _⟩ := h.items; simp [hb] at e2
     | some b =>
-      simp only [List.append_eq_nil_iff, filter_map_nil_iff, ite_nil_iff']
+      simp only [List.append_eq_nil_iff, filter_map_nil_iff, ite_nil_iff_not]
       constructor
       · rintro ⟨hau, ⟨⟨⟨⟨⟨s1, s2⟩, s3⟩, s4⟩, s5⟩, s6⟩⟩
         refine ⟨r1, r2, by simpa using hau, a, b, ha, hb, ?_, ?_, ?_, ?_, ?_, ?_⟩
